@@ -351,12 +351,42 @@ func ruleALPNAndSRTP(c *Ctx, r *Report) {
 		}
 		m++
 		ls := c.Origins(call.Call.Args[1], 0)
-		ok2 := allLeaves(ls, func(v ssa.Value) bool {
+		var fromNegotiation func(v ssa.Value, d int) bool
+		fromNegotiation = func(v ssa.Value, d int) bool {
 			if isZeroStruct(v) {
 				return true // "no SRTP"
 			}
-			return isCallResult(v, nameIs("internal/negotiation.NegotiateSRTP", "internal/negotiation.ValidateSRTPSelection"))
-		})
+			if isCallResult(v, nameIs("internal/negotiation.NegotiateSRTP", "internal/negotiation.ValidateSRTPSelection")) {
+				return true
+			}
+			// a helper of the same package between the negotiation and the commit: what it returns
+			idx := 0
+			inner, _ := v.(*ssa.Call)
+			if ex, isEx := v.(*ssa.Extract); isEx {
+				inner, _ = ex.Tuple.(*ssa.Call)
+				idx = ex.Index
+			}
+			if inner == nil || d > 1 {
+				return false
+			}
+			g := inner.Call.StaticCallee()
+			if g == nil || g.Pkg != s.Fn.Pkg || len(g.Blocks) == 0 {
+				return false
+			}
+			n := 0
+			for _, b := range g.Blocks {
+				ret, isRet := b.Instrs[len(b.Instrs)-1].(*ssa.Return)
+				if !isRet || b == g.Recover || idx >= len(ret.Results) {
+					continue
+				}
+				n++
+				if !allLeaves(c.Origins(ret.Results[idx], 0), func(l ssa.Value) bool { return fromNegotiation(l, d+1) }) {
+					return false
+				}
+			}
+			return n > 0
+		}
+		ok2 := allLeaves(ls, func(v ssa.Value) bool { return fromNegotiation(v, 0) })
 		r.Check(ok2, rule, short(s.Fn)+":srtp-commit", c.ipos(call), "committed SRTP decision comes from NegotiateSRTP / ValidateSRTPSelection", "an SRTP profile is committed that did not come from the negotiation helpers: "+c.describeAll(ls))
 	}
 	r.Floor(rule+":srtp", m, 5)
